@@ -586,3 +586,38 @@ func (n *VNode) VParentStateSize(blk *types.WorkObject) *big.Int {
 	}
 	return p.QuaiStateSize()
 }
+
+// VPrimeRate: a prime header together with the exchange rate recorded in it.
+type VPrimeRate struct {
+	Hdr  *types.WorkObject
+	Rate *big.Int
+}
+
+// VPrimeRatesAround returns, for a zone block that executes inbound ETXs, the prime blocks whose
+// recorded exchange rates may have been applied to them: the last three canonical prime blocks up to
+// the block's prime terminus and its successor (the rate computed while appending prime block P is
+// the one written into P's child).
+func (n *VNode) VPrimeRatesAround(blk *types.WorkObject) []VPrimeRate {
+	var out []VPrimeRate
+	p := n.Sl[0]
+	if p == nil {
+		return nil
+	}
+	head := p.hc.CurrentHeader().NumberU64(0)
+	pt := n.Sl[2].hc.GetHeaderByHash(blk.PrimeTerminusHash())
+	if pt == nil {
+		return nil
+	}
+	ptn := pt.NumberU64(0)
+	lo := uint64(0)
+	if ptn > 3 {
+		lo = ptn - 3
+	}
+	for i := lo; i <= ptn+1 && i <= head; i++ {
+		h := p.hc.GetHeaderByNumber(i)
+		if h != nil && h.ExchangeRate() != nil {
+			out = append(out, VPrimeRate{h, h.ExchangeRate()})
+		}
+	}
+	return out
+}
